@@ -220,12 +220,12 @@ def build(kind, par):
         f = np.zeros(ndof)
         f[-1] = 1.0
         sfv = S("f", f)
+        sv = net.append(pym.EinSum([sx], expression="i->"))
         sub = pym.Network()
-        net.append(sub)
+        net.append(sub)                 # (nothing is appended to the outer network after this point)
         sK = sub.append(pym.AssembleStiffness(sx, domain=d, bc=bc))
         su = sub.append(pym.LinSolve([sK, sfv]))
         sc = sub.append(pym.EinSum([su, sfv], expression="i,i->"))
-        sv = net.append(pym.EinSum([sx], expression="i->"))
         return net, [sx], [sc, su, sv], tol, lambda rng: [rng.uniform(0.2, 1.0, d.nel)]
     if kind == "sparse-decouple":
         # sparse system with a fixed sparsity pattern (explicit zeros, as an assembly routine produces) in which dofs are decoupled
